@@ -288,11 +288,17 @@ func (rule *RuleRunnerLabel) tryToGetLabelsInMatrix(label *String, m *Matrix) []
 }
 
 func (rule *RuleRunnerLabel) checkConflict(comp runnerOSCompat, label *String) bool {
+	// When multiple labels conflict, report the first one in the source. The iteration order of map is random
+	var conflict *String
 	for c, l := range rule.compats {
-		if c&comp == 0 {
-			rule.Errorf(label.Pos, "label %q conflicts with label %q defined at %s. note: to run your job on each workers, use matrix", label.Value, l.Value, l.Pos)
-			return false
+		if c&comp == 0 && (conflict == nil || l.Pos.IsBefore(conflict.Pos)) {
+			conflict = l
 		}
+	}
+	if conflict != nil {
+		l := conflict
+		rule.Errorf(label.Pos, "label %q conflicts with label %q defined at %s. note: to run your job on each workers, use matrix", label.Value, l.Value, l.Pos)
+		return false
 	}
 	return true
 }
